@@ -5,3 +5,4 @@
 pub mod util;
 
 pub mod c13;
+pub mod c32;
